@@ -139,7 +139,10 @@ func UserAgentHandle(str string) (map[string]interface{}, map[string]ast.DType) 
 }
 
 func DateFormatHandle(data interface{}, precision string, fmts string) (string, error) {
-	v := conv.ToInt64(data)
+	v, err := conv.ToInt64E(data)
+	if err != nil {
+		return "", fmt.Errorf("timestamp %v is not an integer", data)
+	}
 
 	var t time.Time
 	switch precision {
@@ -148,6 +151,8 @@ func DateFormatHandle(data interface{}, precision string, fmts string) (string, 
 	case "ms":
 		num := v * int64(time.Millisecond)
 		t = time.Unix(0, num)
+	default:
+		return "", fmt.Errorf("precision %v no support", precision)
 	}
 
 	for key, value := range dateFormatStr {
